@@ -78,7 +78,7 @@ class ParseUnionType(Contract):
         return r
 
 
-V.REG.register(RT.ResultTypesGenerator, ["_imports", "plugin_manager"]) if RT.ResultTypesGenerator not in V.REG.by_cls else None
+from . import lib_generator as _lg      # noqa: E402,F401  (registers ResultTypesGenerator)
 
 
 class ProcessFieldImplementation(Contract):
